@@ -42,17 +42,35 @@ def run(ctx, replay=None):
             is_sum = rng.random() < 0.2
             cases.append({'seed': rng.randrange(10 ** 6), 'gap': rng.random() < 0.5, 'model': rng.choice(fc.SUMS) if is_sum else rng.choice(fc.SINGLE),
                           'use_nugget': rng.choice([False, True]), 'method': rng.choice(['trf', 'trf', 'trf', 'lm']), 'sigma': rng.choice(SIGMAS),
-                          'n_lags': rng.randint(6, 14), 'maxlag': rng.choice([None, None, 'median', 0.8])})
+                          'n_lags': rng.randint(6, 14), 'maxlag': rng.choice([None, None, 'median', 0.8]),
+                          'estimator': rng.choice(['matheron', 'matheron', 'cressie', 'dowd', 'genton']), 'remote': rng.random() < 0.3})
+            if cases[-1]['estimator'] == 'genton':
+                cases[-1]['remote'] = rng.random() < 0.8
         for case in cases:
-            c, v = fc.field(random.Random(case['seed']), with_gap=case['gap'])
+            c, v = fc.field(random.Random(case['seed']), with_gap=case['gap'], n=(24 if case.get('estimator') == 'genton' else None))
+            if case.get('remote'):
+                # one remote station: the outermost lag classes hold a single pair each (Genton returns NaN there)
+                c = np.vstack((c, [[c[:, 0].max() * 3.0, c[:, 1].max() * 3.0]]))
+                v = np.append(v, v.mean())
+            if case.get('estimator') == 'genton' and case.get('remote') and not case.get('searched'):
+                # look for a number of lag classes under which one class holds exactly ONE pair (Genton: NaN although bin_count > 0)
+                case['searched'] = True
+                for nl in [case['n_lags']] + list(range(6, 19)):
+                    try:
+                        if (Variogram(c, v, n_lags=nl, maxlag=case['maxlag'], fit_method=None).bin_count == 1).any():
+                            case['n_lags'] = nl
+                            break
+                    except Exception:
+                        pass
             mname = case['model']
+            ctx.count('estimator', case.get('estimator', 'matheron'))
             ctx.count('model', mname)
             ctx.count('method', case['method'])
             ctx.count('sigma', str(case['sigma']))
             spec = case['sigma']
             if spec == 'array':
                 spec = [0.5 + 0.25 * (i % 4) for i in range(case['n_lags'])]
-            kw = dict(model=mname, n_lags=case['n_lags'], use_nugget=case['use_nugget'], fit_sigma=spec, maxlag=case['maxlag'], fit_method=case['method'])
+            kw = dict(model=mname, n_lags=case['n_lags'], use_nugget=case['use_nugget'], fit_sigma=spec, maxlag=case['maxlag'], fit_method=case['method'], estimator=case.get('estimator', 'matheron'))
             with fc.FitRecorder() as rec:
                 try:
                     V = Variogram(c, v, **kw)
@@ -88,6 +106,7 @@ def run(ctx, replay=None):
             exp = np.asarray(V.experimental, float)
             bins = np.asarray(V.bins, float)
             ctx.count('empty_classes', int(np.sum(np.isnan(exp))) if np.sum(np.isnan(exp)) < 3 else '3+')
+            ctx.count('nan_class_with_pairs', bool(np.any(np.isnan(exp) & (np.asarray(V.bin_count) > 0))))
             if not rec.calls:
                 ctx.problem('correspondence', 'no curve_fit call recorded', case, None)
                 continue
